@@ -40,7 +40,7 @@ func verifHasDependency(insp *flows.Inspection, typ, identity string) bool {
 // a translation, or in a translation only with the base value left empty —
 // whenever the run really used them (the events show the group, field, flow,
 // and the evaluated values of the field and the global).
-// cover: group, field, flow, template-in-base, template-in-translation-only, translation-with-empty-base, msg-text, msg-attachments, msg-quick-replies
+// cover: lookup-notation, group, field, flow, template-in-base, template-in-translation-only, translation-with-empty-base, msg-text, msg-attachments, msg-quick-replies
 func VerifC20_Dependencies() {
 	env := envs.NewBuilder().WithAllowedLanguages("eng", "spa").Build()
 	sa := verifNewAssets()
@@ -51,7 +51,12 @@ func VerifC20_Dependencies() {
 	groupRef := static[0].Reference()
 
 	loc := definition.NewLocalization()
+	// the template refers to the field and the global in dot notation or in lookup notation (no dot in the whole template)
 	tpl := "@fields.gender @globals.org_name"
+	if zzverif.Choice("lookup-notation", 2) == 1 {
+		tpl = "@(fields[\"gender\"]) @(globals[\"org_name\"])"
+		zzverif.Cover("lookup-notation")
+	}
 	part := zzverif.Choice("message-part", 3) // text, attachments, quick replies
 	where := zzverif.Choice("template-in", 3) // base, translation only (base has other text), translation only (base empty)
 	base, trans := []string{tpl}, []string(nil)
